@@ -52,6 +52,14 @@ type faultReader struct {
 	off      int
 	withData bool // a read spanning off returns the bytes before off together with the error
 	chunk    int
+	err      error // the error value (errInjected if nil)
+}
+
+func (r *faultReader) fault() error {
+	if r.err != nil {
+		return r.err
+	}
+	return errInjected
 }
 
 func (r *faultReader) Read(p []byte) (int, error) {
@@ -59,7 +67,7 @@ func (r *faultReader) Read(p []byte) (int, error) {
 		return 0, nil
 	}
 	if r.pos >= r.off {
-		return 0, errInjected
+		return 0, r.fault()
 	}
 	n := len(p)
 	if r.chunk > 0 && n > r.chunk {
@@ -70,7 +78,7 @@ func (r *faultReader) Read(p []byte) (int, error) {
 		copy(p, r.data[r.pos:r.pos+n])
 		r.pos += n
 		if r.withData {
-			return n, errInjected
+			return n, r.fault()
 		}
 		return n, nil
 	}
@@ -89,6 +97,11 @@ func c11Reader(data []byte, kind string, off int, oneByte bool) io.Reader {
 		return &countingReader{b: data[:off], chunk: chunk}
 	case "fault":
 		return &faultReader{data: data, off: off, chunk: chunk}
+	case "fault-unexpected-eof":
+		// a non-EOF error value that transport layers really return (truncated gzip / http bodies)
+		return &faultReader{data: data, off: off, chunk: chunk, err: io.ErrUnexpectedEOF}
+	case "fault-closed-pipe":
+		return &faultReader{data: data, off: off, chunk: chunk, err: io.ErrClosedPipe}
 	default:
 		return &faultReader{data: data, off: off, withData: true, chunk: chunk}
 	}
@@ -161,14 +174,14 @@ func c11PartialDiff(f *fit.File, want map[uint16][]string) string {
 }
 
 func runC11(w *vx.W) {
-	streams := []namedStream{sMin12, sMin14, sMin14z, sAct3, sAct3BE, sSet, sZero, sMonState, sChain2, sChain2b, sChain3, sChainZero, sChainState}
+	streams := []namedStream{sMin12, sMin14, sMin14z, sAct3, sAct3BE, sSet, sZero, sDev, sMonState, sChain2, sChain2b, sChain3, sChainZero, sChainState}
 	if !w.Quick() {
 		streams = append(streams, sBig, sChainBig, s8192)
 	}
 	streams = append(streams, s4096)
 	{
 	}
-	kinds := []string{"cut", "fault", "fault-with-data"}
+	kinds := []string{"cut", "fault", "fault-with-data", "fault-unexpected-eof", "fault-closed-pipe"}
 	var idx int64
 	for _, s := range streams {
 		// member boundaries
